@@ -179,7 +179,16 @@ func (g *gen) handlers(tag string) []zn.Catch {
 		if g.pick(2, "readmsg") == 0 {
 			body = append(body, show("msg", &zn.This{Name: "内容"}))
 		}
-		switch g.pick(5, "hkind") {
+		switch g.pick(7, "hkind") {
+		case 5, 6:
+			// no 输出, and the last statement is an expression with a value of its own: the
+			// value of the handled body is still 空
+			g.labels["handler-ends-in-valued-expression"] = true
+			if g.pick(2, "hexpr") == 0 {
+				body = append(body, &zn.ExprStmt{E: &zn.Call{Name: "Helper", Args: []zn.Expr{num(5)}}})
+			} else {
+				body = append(body, &zn.Let{Names: []string{"HV" + tag}, E: num(0)}, &zn.ExprStmt{E: &zn.Assign{Target: v("HV" + tag), E: num(41)}})
+			}
 		case 0:
 			body = append(body, &zn.Return{E: str("hv-" + tag)})
 		case 1:
